@@ -161,6 +161,41 @@ fn main() {
         println!("{{\"n1\": {}, \"spread1\": {}, \"n2\": {}, \"spread2\": {}}}", n1, s1, n2, s2);
         return;
     }
+    if mode == "race" {
+        // several threads hold the only clones of a long history and drop them at the same moment
+        let turns: usize = argv.get(2).and_then(|x| x.parse().ok()).unwrap_or(25000);
+        let rounds: usize = argv.get(3).and_then(|x| x.parse().ok()).unwrap_or(100);
+        let workers = std::thread::available_parallelism().map(|n| n.get()).unwrap_or(4).clamp(2, 8);
+        for _ in 0..rounds {
+            let (s, _) = play(turns);
+            let clones: Vec<GameState> = (0..workers).map(|_| s.clone()).collect();
+            drop(s);
+            // spin barrier: all workers leave it within nanoseconds of each other
+            let ready = std::sync::Arc::new(AtomicUsize::new(0));
+            let mut hs = vec![];
+            for c in clones {
+                let r = ready.clone();
+                hs.push(
+                    std::thread::Builder::new()
+                        .stack_size(2 * 1024 * 1024)
+                        .spawn(move || {
+                            let _ = c.transposition_hash();
+                            r.fetch_add(1, Ordering::SeqCst);
+                            while r.load(Ordering::SeqCst) < workers {
+                                std::hint::spin_loop();
+                            }
+                            drop(c);
+                        })
+                        .unwrap(),
+                );
+            }
+            for h in hs {
+                h.join().expect("dropping thread");
+            }
+        }
+        println!("{{\"race_rounds\": {}, \"turns\": {}, \"workers\": {}}}", rounds, turns, workers);
+        return;
+    }
     let turns: usize = argv.get(2).and_then(|x| x.parse().ok()).unwrap_or(100000);
     let h = std::thread::Builder::new()
         .stack_size(2 * 1024 * 1024)
